@@ -129,6 +129,17 @@ impl<'a> DsvCursor<'a> {
         core::str::from_utf8(self.current_field())
     }
 
+    /// True once the cursor has run off a text that ends right after an
+    /// unquoted field delimiter: the last row then ends with one more, empty,
+    /// field (`a,` is the row `["a", ""]`, exactly as `a,\n` is).
+    fn at_trailing_empty_field(&self) -> bool {
+        let n = self.text.len();
+        n > 0
+            && self.position >= n
+            && self.index.markers_rank1(n) > self.index.markers_rank1(n - 1)
+            && self.index.newlines_rank1(n) == self.index.newlines_rank1(n - 1)
+    }
+
     /// Check if the current byte is a newline marker.
     fn at_newline(&self) -> bool {
         if self.position == 0 || self.position > self.text.len() {
@@ -178,7 +189,7 @@ impl<'a> DsvRow<'a> {
             ..self.cursor
         };
 
-        for _ in 0..column {
+        for step in 0..column {
             // Check if we hit a newline before reaching the column
             let field = cursor.current_field();
             if field.is_empty() && cursor.at_end() {
@@ -186,7 +197,9 @@ impl<'a> DsvRow<'a> {
             }
 
             if !cursor.next_field() {
-                return None;
+                // The text ends right after a delimiter: one more, empty, field.
+                return (step + 1 == column && cursor.at_trailing_empty_field())
+                    .then(|| &cursor.text[cursor.text.len()..]);
             }
 
             // Check if we moved to the next row
@@ -280,7 +293,11 @@ impl<'a> Iterator for DsvFields<'a> {
         // Move to next field
         if !self.cursor.next_field() {
             self.finished = true;
-            return None;
+            // The text ends right after a delimiter: one more, empty, field.
+            return self
+                .cursor
+                .at_trailing_empty_field()
+                .then(|| &self.cursor.text[self.cursor.text.len()..]);
         }
 
         // Check if we've moved past the current row
